@@ -28,11 +28,12 @@ template<class Sys> static void note_stats(Report& rep, ProbTree<Sys>& pt, const
   rep.count("probe_runs", (double)pt.st.runs); rep.count("replays", (double)pt.replays); rep.count("raw_choice_points", (double)pt.st.raw_points);
   rep.count("expectation_nodes", (double)rs.nodes); rep.evaluations += rs.exp_checks;
   rep.count("info_histories_where_number_of_draws_depends_on_outcome", pt.draws_outcome_dependent ? 1 : 0);
-  double g = rs.max_grid, l = rs.max_leaves, iv = pt.st.max_intervals, md = pt.st.max_draws;
-  if (!rep.extra.count("grid_max") || atof(rep.extra["grid_max"].c_str()) < g) rep.setn("grid_max", g);
-  if (!rep.extra.count("leaves_max") || atof(rep.extra["leaves_max"].c_str()) < l) rep.setn("leaves_max", l);
-  if (!rep.extra.count("intervals_max") || atof(rep.extra["intervals_max"].c_str()) < iv) rep.setn("intervals_max", iv);
-  if (!rep.extra.count("draws_per_op_max") || atof(rep.extra["draws_per_op_max"].c_str()) < md) rep.setn("draws_per_op_max", md);
+  // maxima cannot be merged across task reports (extras are overwritten, counters summed): report them as histograms
+  // of tasks; the exact values are in the per-scenario lines.
+  const uint64_t g = rs.max_grid, l = rs.max_leaves;
+  rep.count(g <= 256 ? "tasks_with_grid_max<=256" : g <= 1024 ? "tasks_with_grid_max<=1024" : g <= 4096 ? "tasks_with_grid_max<=4096" : g <= 16384 ? "tasks_with_grid_max<=16384" : "tasks_with_grid_max>16384");
+  rep.count(l <= 10 ? "tasks_with_leaves_max<=10" : l <= 100 ? "tasks_with_leaves_max<=100" : l <= 1000 ? "tasks_with_leaves_max<=1000" : l <= 10000 ? "tasks_with_leaves_max<=10000" : "tasks_with_leaves_max>10000");
+  rep.count(pt.st.max_draws <= 2 ? "tasks_with_draws_per_op_max<=2" : pt.st.max_draws <= 6 ? "tasks_with_draws_per_op_max<=6" : "tasks_with_draws_per_op_max>6");
   if (pt.st.slivers) rep.count("sliver_intervals", (double)pt.st.slivers);
 }
 
@@ -378,13 +379,13 @@ int main(int argc, char** argv) {
     SeqCfg c3 = {3, 2, W3, 6, 2}; sc.push_back(c3);     // k+3
     for (int ri = 2; ri >= 0; --ri) { SeqCfg c2 = {2, ri, W3, 5, 1}; sc.push_back(c2); SeqCfg c1 = {1, ri, W3, 4, 1}; sc.push_back(c1); }
   } else {
-    SeqCfg a4 = {4, 2, W3, 8, 3}; sc.push_back(a4);     // k+4 over {1,2,10}
+    SeqCfg a4 = {4, 2, W3, 7, 2}; sc.push_back(a4);     // k+3 over {1,2,10} (k+4 = 3^8 sequences x ~150 leaves is not affordable)
     SeqCfg b3 = {3, 2, W5, 5, 2}; sc.push_back(b3);     // k+2 over the full alphabet
-    SeqCfg a3 = {3, 2, W3, 7, 2}; sc.push_back(a3);
+    SeqCfg a3 = {3, 2, W3, 7, 2}; sc.push_back(a3);     // k+4
     SeqCfg b4 = {4, 2, W5, 5, 2}; sc.push_back(b4);     // k+1 over the full alphabet
     for (int ri = 2; ri >= 0; --ri) {
-      SeqCfg b2 = {2, ri, W5, 4, 1}; sc.push_back(b2); SeqCfg a2 = {2, ri, W3, 6, 1}; sc.push_back(a2);
-      SeqCfg b1 = {1, ri, W5, 5, 1}; sc.push_back(b1);
+      SeqCfg b2 = {2, ri, W5, 4, 1}; sc.push_back(b2); SeqCfg a2 = {2, ri, W3, 6, 1}; sc.push_back(a2);   // k+2 / k+4
+      if (ri != 1) { SeqCfg b1 = {1, ri, W5, 5, 1}; sc.push_back(b1); }                                   // k+4
     }
   }
   for (size_t ci = 0; ci < sc.size(); ++ci) {
@@ -402,7 +403,7 @@ int main(int argc, char** argv) {
   }
   // ---------------- fix: shapes ----------------
   for (uint32_t k = 1; k <= 4; ++k) {
-    const size_t nmax = q ? (k <= 2 ? 12 : 9) : 14; const size_t cap = q ? 3000 : 60000;
+    const size_t nmax = q ? (k <= 2 ? 12 : 9) : (k <= 2 ? 14 : k == 3 ? 12 : 10); const size_t cap = q ? 3000 : 60000;
     add_fixed(tasks, k, resize_factor::X8, ramp(nmax, true), false, cap);
     add_fixed(tasks, k, resize_factor::X8, ramp(nmax, false), false, cap);
     add_fixed(tasks, k, resize_factor::X8, ones_with(nmax, 0, 100), false, cap);
@@ -448,7 +449,7 @@ int main(int argc, char** argv) {
       ++counter;
       bool take;
       if (q) take = (c <= 2 && counter % 3 == 0) || (c == 3 && estish && counter % 8 == 0);
-      else take = c <= 3 || (c == 4 && estish && counter % 2 == 0);
+      else take = c <= 3 || (c == 4 && estish && counter % 4 == 0);
       if (!take) continue;
       std::vector<OperandSpec> sp; sp.push_back(all[a]); sp.push_back(all[b]);
       add_union(tasks, mk, sp, ord ? "U<-B,res,U<-A,res" : "U<-A,res,U<-B,res", cap, 50 + 15 * c);
